@@ -15,21 +15,28 @@ from engine.core import diff_streams, log, VERIF
 P = "Pixman.Props.C15."
 REQUIRED = [P + n for n in (
     # F1: FALSE => broken region, TRUE => refines Pixman.Region (Spec.AllocFail.Survives)
-    "broken_of_isBroken", "pixmanBreak_broken", "rectAlloc_false_broken", "rectAlloc_true_erase",
-    "szof_guard_breaks", "copyA_survives", "pixmanOpA_survives", "intersectA_survives",
-    "unionA_survives", "subtractA_survives", "inverseA_survives", "intersectRectA_survives",
-    "unionRectA_survives", "initRectsA_survives_partial", "validateA_false_broken", "initFromImageA_refines_or_broken",
+    "broken_of_isBroken", "pixmanBreak_broken", "rectAlloc_false_broken",
+    "rectAlloc_true_erase", "szof_guard_breaks", "copyA_survives",
+    "pixmanOpA_survives", "intersectA_survives", "unionA_survives",
+    "subtractA_survives", "inverseA_survives", "intersectRectA_survives",
+    "unionRectA_survives", "quick_sort_rects_sorts", "validateA_survives",
+    "initRectsA_survives", "translateA_refines_or_broken", "initFromImageA_refines_or_broken",
+    "conv16_outcome", "conv32_outcome",
     # F2: broken operands
-    "pixmanOpA_broken_operand", "intersectA_broken_operand", "inverseA_broken_operand", "subtractA_broken_operand",
-    "subtractA_broken_minuend_returns_true", "unionA_broken_operand", "unionA_empty_broken_returns_true", "copyA_broken_source_propagates",
-    "translateA_partial", "finiA_accepts_static",
-    # F3: heap discipline
-    "own_no_double_free", "own_nil_all_freed", "copyA_own", "pixmanOpA_own",
-    "intersectA_own", "unionA_own", "subtractA_own", "inverseA_own",
-    "finiA_own", "history_heap_discipline",
+    "pixmanOpA_broken_operand", "intersectA_broken_operand", "inverseA_broken_operand",
+    "subtractA_broken_operand", "subtractA_broken_minuend_returns_true", "unionA_broken_operand",
+    "unionA_empty_broken_returns_true", "copyA_broken_source_propagates", "translate_keeps_broken",
+    "finiA_accepts_static",
+    # F3: heap discipline (validate's bail path, init_rects, translate, from_image, conversions included)
+    "own_no_double_free", "own_nil_all_freed", "copyA_own",
+    "pixmanOpA_own", "intersectA_own", "unionA_own",
+    "subtractA_own", "inverseA_own", "finiA_own",
+    "validate_own", "initRects_own", "translate_own",
+    "initFromImage_own", "conv16_own", "conv32_own",
+    "history_heap_discipline",
     # F4: constructors / setters
-    "construct_null_no_leak", "construct_ok_owns", "construct_destroy_clean", "setOwned_fail_unchanged",
-    "setOwned_own",
+    "construct_null_no_leak", "construct_ok_owns", "construct_destroy_clean",
+    "setOwned_fail_unchanged", "setOwned_own",
 )]
 
 HIST_DEFS = ["-DPIXMAN_VERIF_GLYPH_HIGH_WATER=8", "-DPIXMAN_VERIF_GLYPH_LOW_WATER=4", "-w"]
